@@ -27,8 +27,11 @@ LEVEL = 'exploration'
 RULE = ('every class found in the run-time registries (L2CAP signalling, ATT, SMP, SDP, AVDTP, AVRCP '
         'commands/responses/events/items, typed advertising structures) plus the hand-adapted units '
         '(ERTM control fields, PSM, SDP data elements, RFCOMM frames/MCC/PN/MSC, AVCTP, AV/C, RTP, '
-        'AdvertisingData, Address, UUID, A2DP codec information) x seeded boundary-biased field values; '
-        'ERTM control fields and the RFCOMM length grid are enumerated exhaustively. A case is a seeded '
+        'AdvertisingData, Address, UUID, A2DP codec information, the LATM/AAC RTP payload, the A2DP AAC and SBC '
+        'packet sources) x seeded boundary-biased field values; '
+        'ERTM control fields, the RFCOMM length grid, AV/C subunit IDs (every representable ID x six frame '
+        'classes), LATM frame lengths 0..1100 and k*255-1/k*255/k*255+1 up to 8184, RTP CSRC count x P x X x M and '
+        'SBC frames per packet 1..18 are enumerated exhaustively. A case is a seeded '
         'shuffled history of work items interleaved with polluting steps. distinct = distinct '
         '(family, unit, per-field value class, length class) partition; every counted instance carries '
         'at least the layout clause, so none is trivial')
@@ -40,18 +43,34 @@ ASSUMPTIONS = [
     'BroadcastCode is compared in the unpadded UTF-8 form bumble documents',
     'AVRCP multi-octet fields are big endian (AVRCP 1.6 section 6.3 / AV/C), the 16-octet player feature mask is octet 0 first',
     'SDP elements with non-minimal size descriptors are well-formed: checked for value and re-serialisation of the parsed object only',
+    'AV/C subunit IDs: 0-4 and 7 in the three-bit field, 6-259 with one extension octet (ID-5), 260-514 with 0xFF and a second '
+    'octet (ID-259); subunit types are the ones bumble defines (EXTENDED 0x1E is documented as unsupported); larger IDs are not representable',
+    'LATM: only the form bumble writes (audioMuxVersion 0, one program, one layer, AAC-LC, frameLengthType 0) is built; '
+    'latmBufferFullness is an encoder-state value: other values are parsed and must re-serialise to the same element with 0',
+    'A2DP SBC source: the frames of a packet that is not yet full when the stream ends stay in the source (at most one packet\'s '
+    'worth); frames are generated with the frame length of A2DP 12.9 (last term rounded up to whole octets)',
 ]
 MIN_EVENTS = {
     'quick': {'oracle_evals': 400000, 'instances': 70000, 'layout_checks': 70000, 'from_bytes_checks': 70000,
               'rebuild_checks': 55000, 'pollution_steps': 3000, 'ertm_fields': 5000, 'rfcomm_frames': 2000,
               'sdp_elements': 3000, 'sdp_wide_elements': 400, 'avdtp_generic_messages': 1000, 'sdp_size_boundaries': 16, 'uuid_ops': 1000, 'inst_l2cap-sig': 3000, 'inst_att': 5000,
               'inst_smp': 2000, 'inst_sdp-pdu': 1000, 'inst_avdtp': 6000, 'inst_avrcp-cmd': 3000, 'inst_avrcp-rsp': 3000,
-              'inst_avrcp-evt': 1000, 'inst_avrcp-item': 500},
+              'inst_avrcp-evt': 1000, 'inst_avrcp-item': 500,
+              'avc_grid_frames': 6000, 'avc_extended_subunit_ids_built': 6000, 'avc_subunit_id_switch_over_values': 500,
+              'latm_elements': 1500, 'latm_grid_lengths': 1200, 'latm_length_multiple_of_255': 200,
+              'latm_length_next_to_multiple_of_255': 200, 'aac_source_frames': 1500, 'aac_source_frames_multiple_of_255': 400,
+              'sbc_source_streams': 600, 'sbc_source_packets': 2000, 'sbc_source_packets_with_15_frames': 300,
+              'sbc_source_streams_unaligned': 120, 'sbc_grid_frames_per_packet': 36, 'rtp_grid_packets': 128},
     'thorough': {'oracle_evals': 3000000, 'instances': 500000, 'layout_checks': 500000, 'from_bytes_checks': 400000,
                  'rebuild_checks': 300000, 'pollution_steps': 50000, 'ertm_fields': 33000, 'rfcomm_frames': 30000,
                  'sdp_elements': 50000, 'sdp_wide_elements': 6000, 'avdtp_generic_messages': 8000, 'sdp_size_boundaries': 100, 'uuid_ops': 15000, 'inst_l2cap-sig': 60000, 'inst_att': 100000,
                  'inst_smp': 40000, 'inst_sdp-pdu': 20000, 'inst_avdtp': 120000, 'inst_avrcp-cmd': 60000, 'inst_avrcp-rsp': 60000,
-                 'inst_avrcp-evt': 20000, 'inst_avrcp-item': 10000},
+                 'inst_avrcp-evt': 20000, 'inst_avrcp-item': 10000,
+                 'avc_grid_frames': 24000, 'avc_extended_subunit_ids_built': 24000, 'avc_subunit_id_switch_over_values': 2000,
+                 'latm_elements': 15000, 'latm_grid_lengths': 4800, 'latm_length_multiple_of_255': 2000,
+                 'latm_length_next_to_multiple_of_255': 2000, 'aac_source_frames': 15000, 'aac_source_frames_multiple_of_255': 4000,
+                 'sbc_source_streams': 6000, 'sbc_source_packets': 20000, 'sbc_source_packets_with_15_frames': 3000,
+                 'sbc_source_streams_unaligned': 1200, 'sbc_grid_frames_per_packet': 144, 'rtp_grid_packets': 512},
 }
 CASE_TIMEOUT = 900
 SHARD_TIMEOUT = {'quick': 900, 'thorough': 7200}
@@ -67,6 +86,11 @@ def plan(tier, seed):
         cases.append({'kind': 'avdtp-generic', 'seed': seed * 100003 + i})
     for i in range(4 if tier == 'quick' else 16):
         cases.append({'kind': 'sdp-bounds', 'seed': seed * 100003 + i})
+    for rep in range(1 if tier == 'quick' else 4):
+        for shape in AVC_SHAPES:
+            cases.append({'kind': 'avc-grid', 'shape': shape, 'seed': seed * 7 + rep})
+        for part in range(8):
+            cases.append({'kind': 'media-grid', 'part': part, 'parts': 8, 'seed': seed * 7 + rep})
     return cases
 
 
@@ -1332,10 +1356,29 @@ def ev_avctp(ev: Ev, unit):
                      lambda: f'{what()} assembler delivered {short(got, 200)}')
 
 
-def ev_avc(ev: Ev, unit):
+AVC_SHAPES = ('VendorDependentCommandFrame', 'VendorDependentResponseFrame', 'PassThroughCommandFrame',
+              'PassThroughResponseFrame', 'CommandFrame', 'ResponseFrame')
+# subunit IDs at every switch-over of the extension encoding: 0..4 and 7 live in the three-bit field, 6..259 take ONE
+# extension octet (ID - 5 = 0x01..0xFE), 260..514 take the escape 0xFF plus a second octet (ID - 259 = 0x01..0xFF)
+AVC_EXTENDED_SIDS = (6, 8, 9, 100, 257, 258, 259, 260, 261, 262, 300, 512, 513, 514)
+
+
+def avc_sid_class(sid):
+    if sid < 5 or sid == 7:
+        return None
+    return 'extended-subunit-id/one-extension-octet' if sid <= 259 else 'extended-subunit-id/two-extension-octets'
+
+
+def ev_avc(ev: Ev, unit, force=None):
+    """force = {'shape':, 'sid':, 'st':} pins the frame class, subunit ID and subunit type (grid cases)"""
     from bumble import avc
     rng, r = ev.rng, ev.r
     ev.begin()
+    force = force or {}
+    extended = unit == 'extended-subunit'
+    if extended:
+        unit = rng.choice(AVC_SHAPES)       # the extension octets precede the opcode of EVERY frame class
+    unit = force.get('shape', unit)
     is_cmd = 'Command' in unit
     code = rng.choice([0, 1, 2, 3, 4]) if is_cmd else rng.choice([0x8, 0x9, 0xA, 0xB, 0xC, 0xD, 0xF])
     st = rng.choice([0x09, 0x1F, 0x00, 0x01, 0x1C, rng.choice([int(x) for x in avc.Frame.SubunitType if int(x) != 0x1E])])
@@ -1360,11 +1403,15 @@ def ev_avc(ev: Ev, unit):
         operands = RU.rnd_bytes(rng, rng.choice([0, 1, 5, 40]))
         want = {'operands': operands}
         args = (avc.Frame.OperationCode(opcode), operands)
-    if unit == 'extended-subunit':
-        sid = rng.choice([5 + 1, 5 + 0xFE, 5 + 254 + 0, 5 + 254 + 7, rng.randint(6, 5 + 254 + 255)])
-        disc = 'extended-subunit-id'
+    if extended:
+        sid = rng.choice(AVC_EXTENDED_SIDS) if rng.random() < 0.8 else rng.randint(6, 5 + 254 + 255)
+    sid, st = force.get('sid', sid), force.get('st', st)
+    if avc_sid_class(sid):
+        disc = avc_sid_class(sid)
+        r.ev('avc_extended_subunit_ids')
+        r.ev('avc_subunit_id_switch_over_values', 1 if sid in (258, 259, 260, 261, 513, 514, 6) else 0)
     ref = RU.avc_frame(code, st, sid, opcode, operands)
-    cls = getattr(avc, unit) if hasattr(avc, unit) else (avc.CommandFrame if is_cmd else avc.ResponseFrame)
+    cls = getattr(avc, unit)
     r.sig('avc', unit, disc, code, sid)
     what = lambda: f'{unit} code={code:#x} subunit_type={st:#x} subunit_id={sid} opcode={opcode:#x} {short(want, 160)} ref={hx(ref, 60)}'  # noqa
 
@@ -1376,20 +1423,21 @@ def ev_avc(ev: Ev, unit):
         return d
     wantv = {'code': code, 'st': st, 'sid': sid, 'opcode': opcode, **want}
     codeobj = avc.CommandFrame.CommandType(code) if is_cmd else avc.ResponseFrame.ResponseCode(code)
-    if unit != 'extended-subunit':
-        ok, obj = ev.guarded('build', disc, lambda: cls(codeobj, avc.Frame.SubunitType(st), sid, *args), what)
-        if ok:
-            ok, b1 = ev.guarded('serialise', disc, lambda: bytes(obj), what)
-        if ok:
-            r.ev('layout_checks')
-            ev.check(b1 == ref, 'layout', disc, lambda: f'{what()} bumble={hx(b1, 60)}')
-            okp, p = ev.guarded('parse', disc, lambda: avc.Frame.from_bytes(b1), what)
-            if okp:
-                ev.check(type(p) is cls, 'parse-class', type(p).__name__, lambda: f'{what()} parsed as {type(p).__name__}')
-                okv, got = ev.guarded('value', disc, lambda: view(p), what)
-                if okv:
-                    ev.check(got == wantv, 'value', disc, lambda: f'{what()} parsed={short(got, 200)}')
-                ev.check(bytes(p) == b1, 'reserialise', disc, lambda: f'{what()} again={hx(bytes(p), 60)}')
+    ok, obj = ev.guarded('build', disc, lambda: cls(codeobj, avc.Frame.SubunitType(st), sid, *args), what)
+    if ok:
+        ok, b1 = ev.guarded('serialise', disc, lambda: bytes(obj), what)
+    if ok:
+        r.ev('layout_checks')
+        if disc and disc.startswith('extended'):
+            r.ev('avc_extended_subunit_ids_built')
+        ev.check(b1 == ref, 'layout', disc, lambda: f'{what()} bumble={hx(b1, 60)}')
+        okp, p = ev.guarded('parse', disc, lambda: avc.Frame.from_bytes(b1), what)
+        if okp:
+            ev.check(type(p) is cls, 'parse-class', type(p).__name__, lambda: f'{what()} parsed as {type(p).__name__}')
+            okv, got = ev.guarded('value', disc, lambda: view(p), what)
+            if okv:
+                ev.check(got == wantv, 'value', disc, lambda: f'{what()} parsed={short(got, 200)}')
+            ev.check(bytes(p) == b1, 'reserialise', disc, lambda: f'{what()} again={hx(bytes(p), 60)}')
     r.ev('from_bytes_checks')
     okp, p = ev.guarded('from-bytes/parse', disc, lambda: avc.Frame.from_bytes(ref), what)
     if okp:
@@ -1537,12 +1585,14 @@ def ev_avrcp_special(ev: Ev, unit):
 
 
 # ---- RTP ---------------------------------------------------------------------------------
-def ev_rtp(ev: Ev, unit):
+def ev_rtp(ev: Ev, unit, force=None):
     from bumble import rtp
     rng, r = ev.rng, ev.r
     ev.begin()
-    ncsrc = rng.choice([0, 0, 1, 2, 3, 15])
-    v = dict(version=rng.choice([2, 2, 0, 3]), padding=rng.randint(0, 1), extension=rng.randint(0, 1), marker=rng.randint(0, 1),
+    force = force or {}
+    ncsrc = force.get('ncsrc', rng.choice([0, 0, 1, 2, 3, 15, rng.randint(0, 15)]))
+    v = dict(version=rng.choice([2, 2, 0, 3]), padding=force.get('padding', rng.randint(0, 1)),
+             extension=force.get('extension', rng.randint(0, 1)), marker=force.get('marker', rng.randint(0, 1)),
              sequence_number=RU.gen_int(rng, 16), timestamp=RU.gen_int(rng, 32), ssrc=RU.gen_int(rng, 32),
              csrc_list=[RU.gen_int(rng, 32) if i % 2 else rng.getrandbits(32) for i in range(ncsrc)],
              payload_type=rng.choice([96, 0, 127, rng.randint(0, 127)]))
@@ -1551,7 +1601,7 @@ def ev_rtp(ev: Ev, unit):
         words = rng.choice([0, 1, 3])
         payload = struct.pack('>HH', rng.getrandbits(16), words) + RU.rnd_bytes(rng, 4 * words) + payload
     if v['padding']:
-        pad = rng.choice([1, 2, 4])
+        pad = rng.choice([1, 2, 4, 255])
         payload = payload + bytes(pad - 1) + bytes([pad])
     ref = RU.rtp_packet(v['version'], v['padding'], v['extension'], v['marker'], v['payload_type'], v['sequence_number'],
                         v['timestamp'], v['ssrc'], v['csrc_list'], payload)
@@ -1620,6 +1670,229 @@ def ev_a2dp(ev: Ev, unit):
         oks, b2 = ev.guarded('from-bytes/reserialise', None, lambda: bytes(p), what)
         if oks:
             ev.check(b2 == ref, 'from-bytes/reserialise', None, lambda: f'{what()} again={b2.hex()}')
+
+
+
+# ---- media payloads: LATM (AAC), ADTS -> RTP, SBC -> RTP ---------------------------------------------
+def latm_len_class(n):
+    """class of a LATM PayloadLengthInfo: how many 0xFF octets and whether the remainder octet is 0"""
+    k = n // 255
+    return f'ff-octets={min(k, 2)}{"+" if k >= 2 else ""}/{"remainder=0" if n % 255 == 0 and n else "remainder>0" if n else "empty"}'
+
+
+def gen_latm_len(rng, top=40):
+    c = rng.random()
+    if c < 0.6:
+        return max(0, rng.randint(0, top) * 255 + rng.choice([-1, 0, 0, 1]))
+    if c < 0.8:
+        return rng.randint(0, 600)
+    return rng.randint(0, top * 255)
+
+
+def drain(make_agen):
+    """run an async generator whose reads never suspend; -> list of yielded items"""
+    out = []
+
+    async def go():
+        async for x in make_agen():
+            out.append(x)
+    coro = go()
+    try:
+        coro.send(None)
+    except StopIteration:
+        return out
+    coro.close()
+    raise RuntimeError('the packet source suspended on a read that never suspends')
+
+
+def reader_of(data: bytes):
+    pos = [0]
+
+    async def read(n):
+        chunk = data[pos[0]:pos[0] + n]
+        pos[0] += len(chunk)
+        return chunk
+    return read
+
+
+def latm_one(ev: Ev, sfi, channels, payload: bytes, buffer_fullness=0):
+    """one AAC frame through codecs.AacAudioRtpPacket, both directions"""
+    from bumble.codecs import AacAudioRtpPacket
+    r = ev.r
+    ev.begin()
+    n = len(payload)
+    disc = latm_len_class(n)
+    sf = RU.AAC_SAMPLING_FREQUENCIES[sfi]
+    ref = RU.latm_audio_mux_element(sfi, channels, payload, buffer_fullness=buffer_fullness)
+    canonical = RU.latm_audio_mux_element(sfi, channels, payload)     # what a writer that always says "buffer fullness 0" emits
+    r.ev('latm_elements')
+    r.ev('latm_length_multiple_of_255', 1 if n and n % 255 == 0 else 0)
+    r.ev('latm_length_next_to_multiple_of_255', 1 if n and (n % 255 in (1, 254)) else 0)
+    what = lambda: f'AAC frame of {n} octets, {sf} Hz, {channels} channels, latmBufferFullness={buffer_fullness}: ref={hx(ref, 24)}'  # noqa
+
+    def view(p):
+        c = p.audio_mux_element.stream_mux_config.audio_specific_config
+        return (int(c.audio_object_type), int(c.sampling_frequency_index), int(c.sampling_frequency), int(c.channel_configuration),
+                len(p.audio_mux_element.payload), bytes(p.audio_mux_element.payload))
+    want = (2, sfi, sf, channels, n, payload)
+    if buffer_fullness == 0:
+        ok, obj = ev.guarded('build', disc, lambda: AacAudioRtpPacket.for_simple_aac(sf, channels, payload), what)
+        if ok:
+            ok, b1 = ev.guarded('serialise', disc, lambda: bytes(obj), what)
+        if ok:
+            r.ev('layout_checks')
+            ev.check(b1 == ref, 'layout', disc, lambda: f'{what()} bumble={hx(b1, 24)} ({len(b1)} octets, reference {len(ref)})')
+            okp, p = ev.guarded('parse', disc, lambda: AacAudioRtpPacket.from_bytes(b1), what)
+            if okp:
+                got = view(p)
+                ev.check(got[:5] == want[:5] and got[5] == payload, 'value', disc,
+                         lambda: f'{what()} parsed (aot, sfi, sf, channels, length)={got[:5]} payload equal={got[5] == payload}')
+                ev.check(bytes(p) == b1, 'reserialise', disc, lambda: f'{what()} again={hx(bytes(p), 24)}')
+    r.ev('from_bytes_checks')
+    okp, p = ev.guarded('from-bytes/parse', disc, lambda: AacAudioRtpPacket.from_bytes(ref), what)
+    if okp:
+        got = view(p)
+        ev.check(got[:5] == want[:5] and got[5] == payload, 'from-bytes/value', disc,
+                 lambda: f'{what()} parsed (aot, sfi, sf, channels, length)={got[:5]} payload equal={got[5] == payload}')
+        oks, b2 = ev.guarded('from-bytes/reserialise', disc, lambda: bytes(p), what)
+        if oks:
+            ev.check(b2 == canonical, 'from-bytes/reserialise', disc, lambda: f'{what()} again={hx(b2, 24)} ({len(b2)} octets)')
+        r.ev('rebuild_checks')
+        c = p.audio_mux_element.stream_mux_config.audio_specific_config
+        okb, b3 = ev.guarded('from-bytes/rebuild', disc, lambda: bytes(AacAudioRtpPacket.for_simple_aac(
+            c.sampling_frequency, c.channel_configuration, p.audio_mux_element.payload)), what)
+        if okb:
+            ev.check(b3 == canonical, 'from-bytes/rebuild', disc, lambda: f'{what()} rebuilt={hx(b3, 24)} ({len(b3)} octets)')
+
+
+def aac_source_one(ev: Ev, frames, sfi, channels, mtu=0):
+    """an ADTS stream through a2dp.AacPacketSource: one RTP packet per frame whose payload is the LATM element of
+    that frame; the packets are serialised, parsed back (rtp.MediaPacket, AacAudioRtpPacket) and compared"""
+    from bumble import a2dp, rtp
+    from bumble.codecs import AacAudioRtpPacket
+    r = ev.r
+    ev.begin()
+    stream = b''.join(RU.adts_frame(1, sfi, channels, f, mpeg2=i % 2 == 1, buffer_fullness=[0x7FF, 0, 0x123][i % 3])
+                      for i, f in enumerate(frames))
+    sizes = [len(f) for f in frames]
+    what = lambda: f'ADTS stream of AAC-LC frames with sizes {sizes}, sampling frequency index {sfi}, {channels} channels'  # noqa
+    r.ev('aac_source_streams')
+    ok, packets = ev.guarded('source', None, lambda: drain(lambda: a2dp.AacPacketSource(reader_of(stream), mtu).packets), what)
+    if not ok:
+        return
+    if not ev.check(len(packets) == len(frames), 'source/packet-count', None,
+                    lambda: f'{what()}: {len(packets)} packets for {len(frames)} frames'):
+        return
+    for i, (f, pk) in enumerate(zip(frames, packets)):
+        disc = latm_len_class(len(f))
+        r.ev('aac_source_frames')
+        r.ev('aac_source_frames_multiple_of_255', 1 if len(f) % 255 == 0 else 0)
+        w = lambda: f'{what()}, frame {i} ({len(f)} octets)'  # noqa
+        oks, wire = ev.guarded('source/serialise', disc, lambda: bytes(pk), w)
+        if not oks:
+            return
+        ref = RU.rtp_packet(2, 0, 0, 0, 96, i & 0xFFFF, wire[4:8] and int.from_bytes(wire[4:8], 'big'), 0, [],
+                            RU.latm_audio_mux_element(sfi, channels, f))
+        r.ev('layout_checks')
+        if not ev.check(wire == ref, 'source/layout', disc, lambda: f'{w()}: packet={hx(wire, 40)} ({len(wire)} octets) reference={hx(ref, 40)} ({len(ref)} octets)'):
+            return
+        okp, mp = ev.guarded('source/parse', disc, lambda: rtp.MediaPacket.from_bytes(wire), w)
+        if not okp:
+            return
+        okl, el = ev.guarded('source/parse', disc, lambda: AacAudioRtpPacket.from_bytes(mp.payload), w)
+        if not okl:
+            return
+        got = bytes(el.audio_mux_element.payload)
+        if not ev.check(got == f and mp.sequence_number == i & 0xFFFF, 'source/value', disc,
+                        lambda: f'{w()}: sink got a {len(got)}-octet frame, sequence number {mp.sequence_number}'):
+            return
+        ev.check(bytes(mp) == wire, 'source/reserialise', disc, lambda: f'{w()}: parsed packet re-serialises differently')
+
+
+SBC_BITPOOLS = (2, 3, 10, 19, 32, 35, 53)
+
+
+def gen_sbc_params(rng, aligned_only=False):
+    for _ in range(200):
+        sf_index, blocks, mode = rng.randrange(4), rng.choice([4, 8, 12, 16]), rng.randrange(4)
+        alloc, subbands, bitpool = rng.randrange(2), rng.choice([4, 8]), rng.choice(SBC_BITPOOLS)
+        ch = 1 if mode == RU.SBC_MONO else 2
+        bits = blocks * ch * bitpool if mode in (RU.SBC_MONO, RU.SBC_DUAL) else (subbands if mode == RU.SBC_JOINT else 0) + blocks * bitpool
+        if aligned_only and bits % 8:
+            continue
+        return (sf_index, blocks, mode, alloc, subbands, bitpool), bits % 8 == 0
+    raise RuntimeError('no SBC parameters')
+
+
+def sbc_source_one(ev: Ev, params, aligned, n_frames, mtu, rng):
+    """an SBC stream through a2dp.SbcPacketSource: every RTP packet carries the A2DP media payload header
+    (number of frames, 1..15) and that many WHOLE frames; the packets, in order, carry the frames of the stream in
+    order (the source keeps the frames of a not yet full packet when the stream ends: at most one packet's worth)"""
+    from bumble import a2dp, rtp
+    r = ev.r
+    ev.begin()
+    frames = [RU.sbc_frame(rng, *params) for _ in range(n_frames)]
+    flen = len(frames[0])
+    stream = b''.join(frames)
+    per_packet = max(1, min(15, (mtu - 13) // flen))
+    disc = 'frame-bits-multiple-of-8' if aligned else 'frame-bits-not-multiple-of-8'
+    what = lambda: (f'SBC stream of {n_frames} frames of {flen} octets (sf index, blocks, channel mode, allocation, subbands, bitpool = '  # noqa
+                    f'{params}), mtu {mtu} -> {per_packet} frames per packet')
+    r.ev('sbc_source_streams')
+    r.ev('sbc_source_streams_' + ('aligned' if aligned else 'unaligned'))
+    ok, packets = ev.guarded('source', disc, lambda: drain(lambda: a2dp.SbcPacketSource(reader_of(stream), mtu).packets), what)
+    if not ok:
+        return
+    carried = []
+    for i, pk in enumerate(packets):
+        r.ev('sbc_source_packets')
+        oks, wire = ev.guarded('source/serialise', disc, lambda: bytes(pk), what)
+        if not oks:
+            return
+        okp, mp = ev.guarded('source/parse', disc, lambda: rtp.MediaPacket.from_bytes(wire), what)
+        if not okp:
+            return
+        pl = bytes(mp.payload)
+        count = pl[0] & 0x0F if pl else -1
+        r.ev('sbc_source_packets_with_15_frames', 1 if count == 15 else 0)
+        body = pl[1:]
+        if not ev.check(1 <= count <= 15 and pl[0] >> 4 == 0 and len(body) == count * flen, 'source/frame-count', disc,
+                        lambda: f'{what()}: packet {i} header {pl[:1].hex()} announces {count} frames, carries {len(body)} octets = {len(body) / flen:.2f} frames'):
+            return
+        ref = RU.rtp_packet(2, 0, 0, 0, 96, i & 0xFFFF, mp.timestamp, 0, [], RU.sbc_media_payload([body[j * flen:(j + 1) * flen] for j in range(count)]))
+        r.ev('layout_checks')
+        ev.check(wire == ref, 'source/layout', disc, lambda: f'{what()}: packet {i}={hx(wire, 40)} reference={hx(ref, 40)}')
+        ev.check(bytes(mp) == wire, 'source/reserialise', disc, lambda: f'{what()}: parsed packet {i} re-serialises differently')
+        carried += [body[j * flen:(j + 1) * flen] for j in range(count)]
+    r.ev('sbc_source_frames', len(carried))
+    held_back = n_frames - len(carried)
+    if ev.check(carried == frames[:len(carried)], 'source/frames-altered', disc,
+                lambda: f'{what()}: the {len(carried)} carried frames are not the first frames of the stream '
+                        f'(first difference at frame {next((j for j, (a, b) in enumerate(zip(carried, frames)) if a != b), len(carried))})'):
+        ev.check(0 <= held_back <= per_packet, 'source/frames-lost', disc,
+                 lambda: f'{what()}: {len(packets)} packets carry {len(carried)} frames, {held_back} frames never left the source '
+                         f'(one unfinished packet holds at most {per_packet})')
+
+
+def ev_media(ev: Ev, unit):
+    rng = ev.rng
+    if unit == 'aac-latm':
+        n = gen_latm_len(rng)
+        ev.r.sig('media', unit, latm_len_class(n), n % 255 in (0, 1, 254))
+        latm_one(ev, rng.randrange(13), rng.randint(1, 7), RU.rnd_bytes(rng, n), buffer_fullness=rng.choice([0, 0, 0, 0xFF, rng.randrange(256)]))
+    elif unit == 'aac-source':
+        sizes = [max(1, gen_latm_len(rng, top=32)) for _ in range(rng.randint(1, 4))]
+        sizes = [min(x, 8184) for x in sizes]
+        ev.r.sig('media', unit, tuple(latm_len_class(x) for x in sizes))
+        aac_source_one(ev, [RU.rnd_bytes(rng, x) for x in sizes], rng.randrange(13), rng.randint(1, 7), mtu=rng.choice([0, 672, 1000]))
+    else:
+        params, aligned = gen_sbc_params(rng)
+        flen = RU.sbc_frame_length(params[1], params[2], params[4], params[5])
+        per = rng.choice([1, 2, 5, 14, 15, 15, 16, 20])
+        mtu = 13 + per * flen + rng.choice([0, 0, 1, flen - 1])
+        n_frames = rng.choice([1, per, per + 1, 2 * min(per, 15), 2 * min(per, 15) + 1, 31, 46])
+        ev.r.sig('media', unit, aligned, min(per, 16), params[2])
+        sbc_source_one(ev, params, aligned, n_frames, mtu, rng)
 
 
 # ---- advertising data ------------------------------------------------------------------------
@@ -1959,6 +2232,7 @@ HAND_UNITS = {
                        'NotImplementedResponse', 'pdu-header'], ev_avrcp_special),
     'rtp': (['MediaPacket'], ev_rtp),
     'a2dp': (['sbc', 'aac', 'vendor', 'opus'], ev_a2dp),
+    'media': (['aac-latm', 'aac-source', 'sbc-source'], ev_media),
     'ad-typed': (sorted(RU.AD_TYPES), ev_ad_typed),
     'ad': (['AdvertisingData'], ev_advertising_data),
     'address': (['bytes', 'string'], ev_address),
@@ -2214,7 +2488,73 @@ def case_ertm_all(case, r: R):
 
 EXHAUSTIVE_NOTE = ('ERTM enhanced control fields: all 32768 I-frame and 768 valid S-frame field combinations; RFCOMM: UIH payload '
                    'lengths 0-3,120-135,254-257,16383,16384,32766,32767 x C/R x DLCI {0,2,61} x credit/no credit, and every '
-                   'SABM/UA/DM/DISC address/PF combination')
+                   'SABM/UA/DM/DISC address/PF combination; AV/C: every representable subunit ID (0-4, 6-514) x six frame classes, all '
+                   'defined subunit types at the switch-over IDs; LATM: AAC frame lengths 0-1100 and k*255-1, k*255, k*255+1 for k<=40; '
+                   'RTP: CSRC count 0-15 x padding x extension x marker; SBC source: 1-18 frames of room per packet')
+
+
+def case_avc_grid(case, r: R):
+    """one AV/C frame class x every subunit type bumble defines x EVERY representable subunit ID (0..4, 6..514):
+    built from fields and parsed from the reference octets"""
+    from bumble import avc
+    shape = case['shape']
+    rng = random.Random(f'avc-grid/{shape}/{case["seed"]}')
+    ev = Ev(r, 'avc', shape, rng)
+    types = [int(x) for x in avc.Frame.SubunitType if int(x) != 0x1E]
+    n = 0
+    for sid in [x for x in range(0, 5 + 254 + 255 + 1) if x != 5]:
+        for st in ([types[sid % len(types)], 0x09] if sid not in (258, 259, 260, 261, 513, 514) else types):
+            ev_avc(ev, shape, force={'shape': shape, 'sid': sid, 'st': st})
+            r.ev('avc_grid_frames')
+            n += 1
+    r.sig('avc-grid', shape)
+    r.evals(n)
+    r.sample = {'kind': 'avc-grid', 'class': shape, 'subunit_ids': '0..4, 6..514 (all)', 'subunit_types': types, 'frames': n}
+
+
+def case_media_grid(case, r: R):
+    """LATM: every AAC frame length 0..1100 and k*255-1, k*255, k*255+1 up to the largest ADTS frame; the same boundary
+    lengths as ADTS streams through the A2DP AAC source; RTP: every CSRC count x padding x extension x marker;
+    SBC source: every frame count per packet 1..15 (+ a MTU with room for 16 and more)"""
+    part, parts = case['part'], case['parts']
+    rng = random.Random(f'media-grid/{part}/{case["seed"]}')
+    ev = Ev(r, 'media', 'aac-latm', rng)
+    lens = sorted(set(range(0, 1101)) | {max(0, k * 255 + d) for k in range(1, 41) for d in (-1, 0, 1)} | {8183, 8184})
+    n = 0
+    for i, ln in enumerate(lens):
+        if i % parts != part:
+            continue
+        latm_one(ev, (ln + case['seed']) % 13, 1 + (ln + case['seed']) % 7, RU.rnd_bytes(rng, ln))
+        r.ev('latm_grid_lengths')
+        n += 1
+    ev = Ev(r, 'media', 'aac-source', rng)
+    bounds = [max(1, k * 255 + d) for k in range(1, 33) for d in (-1, 0, 1)] + [8183, 8184]
+    mine = [b for i, b in enumerate(bounds) if i % parts == part]
+    for i in range(0, len(mine), 6):
+        aac_source_one(ev, [RU.rnd_bytes(rng, x) for x in mine[i:i + 6]], rng.randrange(13), rng.randint(1, 7))
+        n += 1
+    ev = Ev(r, 'media', 'sbc-source', rng)
+    for per in range(1, 19):
+        if per % parts != part:
+            continue
+        for aligned_only in (True, False):
+            params, aligned = gen_sbc_params(rng, aligned_only=aligned_only)
+            flen = RU.sbc_frame_length(params[1], params[2], params[4], params[5])
+            sbc_source_one(ev, params, aligned, 2 * min(per, 15) + 1, 13 + per * flen, rng)
+            r.ev('sbc_grid_frames_per_packet')
+            n += 1
+    if part == 0:
+        ev = Ev(r, 'rtp', 'MediaPacket', rng)
+        for ncsrc in range(16):
+            for padding in (0, 1):
+                for extension in (0, 1):
+                    for marker in (0, 1):
+                        ev_rtp(ev, 'MediaPacket', force={'ncsrc': ncsrc, 'padding': padding, 'extension': extension, 'marker': marker})
+                        r.ev('rtp_grid_packets')
+                        n += 1
+    r.sig('media-grid', part)
+    r.evals(n)
+    r.sample = {'kind': 'media-grid', 'part': part, 'latm_lengths': len(lens) // parts, 'largest': lens[-1]}
 
 
 def case_avdtp_generic(case, r: R):
@@ -2270,6 +2610,10 @@ def run_case(case, r: R):
         case_rfcomm_grid(case, r)
     elif kind == 'sdp-bounds':
         case_sdp_bounds(case, r)
+    elif kind == 'avc-grid':
+        case_avc_grid(case, r)
+    elif kind == 'media-grid':
+        case_media_grid(case, r)
     else:
         raise ValueError(kind)
 
@@ -2278,7 +2622,10 @@ LEVEL_TEXT = ('Four-clause round-trip oracle (build->bytes->parse->equal + re-se
               'byte layouts from vlib/ref_upper.py, parse of the reference bytes) over every class found in the run-time registries '
               'of L2CAP signalling, ATT, SMP, SDP, AVDTP and AVRCP plus hand-adapted units for ERTM control fields (exhaustive), PSM, '
               'SDP data elements (all size-descriptor switch points), RFCOMM frames/MCC/PN/MSC (length grid with and without credit '
-              'octet, own CRC table), AVCTP, AV/C, RTP, advertising data and its typed structures, Address, UUID and A2DP codec '
+              'octet, own CRC table), AVCTP, AV/C (every representable subunit ID x six frame classes), RTP (every CSRC count x '
+              'P/X/M), the LATM AudioMuxElement of AAC-over-RTP (frame lengths 0-1100 and every k*255-1/k*255/k*255+1 up to 8184, '
+              'built, parsed from reference bits, and through a2dp.AacPacketSource fed with ADTS), a2dp.SbcPacketSource (1-18 '
+              'frames of room per packet, all SBC parameter classes), advertising data and its typed structures, Address, UUID and A2DP codec '
               'information; ~3x10^4 (quick) / 5x10^5 (thorough) instances executed in shuffled histories with polluting steps; every '
               'failing item is re-run alone in a fresh process. Held = no refuting instance among those generated; sampling, not proof.')
 LEVEL_NOTE = ('Trusted: the layouts transcribed from the specifications in vlib/ref_upper.py (no bumble import), CPython. Field values '
